@@ -32,9 +32,10 @@ Proof. exact (short_probe_lemma e st ip input). Qed.
 Print Assumptions short_probe_waits.
 
 (* after authentication: an unparsable address header or a chunk failing authentication is
-   drained; the server closes only after the client has *)
+   drained; the server closes only after the client has (a client that aborted its connection with
+   a reset has closed already) *)
 Theorem post_auth_invalid_drains e ci k evs code c w :
-  after_auth e ci k = (evs, code, c, w) ->
+  after_auth e ci k = (evs, code, c, w) -> ci_client_reset ci = false ->
   code = st_read_address \/ code = st_relay_client -> w = AtClientFin.
 Proof. exact (post_auth_invalid_drains_lemma e ci k evs code c w). Qed.
 Print Assumptions post_auth_invalid_drains.
